@@ -159,6 +159,7 @@ type Exec struct {
 	uf map[string][]ufApp
 
 	TermProf  map[string]int
+	bufFieldIdx int // see intr_misc.go (per Exec: instances run in parallel)
 	lastClock *Term
 	SymClock  bool
 }
@@ -229,46 +230,44 @@ func (x *Exec) newObj(v Value, s *State) int {
 		}
 	}
 	mix(x.curSite)
-	switch c := v.(type) {
-	case *StructVal:
-		mix(100 + len(c.F))
-	case *ArrayVal:
-		mix(2)
-		if len(c.E) > 0 {
-			switch e := c.E[0].(type) {
-			case *Term:
-				mix(10 + e.W)
-			case *StrVal:
-				mix(3)
-			case *StructVal:
-				mix(100 + len(e.F))
-			case *PtrVal:
-				mix(4)
-			case *IfaceVal:
-				mix(5)
-			case *SliceVal:
-				mix(6)
+	var kind func(v Value, d int)
+	kind = func(v Value, d int) {
+		switch c := v.(type) {
+		case *StructVal:
+			mix(100 + len(c.F))
+			if d > 0 {
+				for _, f := range c.F {
+					kind(f, d-1)
+				}
 			}
+		case *ArrayVal:
+			mix(2)
+			if len(c.E) > 0 && d > 0 {
+				kind(c.E[0], d-1)
+			}
+		case *MapObj:
+			mix(7)
+		case *ChanObj:
+			mix(8 + 16*c.Cap)
+		case *OpaqueVal:
+			mix(9)
+		case *Term:
+			mix(10 + c.W)
+		case *StrVal:
+			mix(3)
+		case *PtrVal:
+			mix(4)
+		case *IfaceVal:
+			mix(5)
+		case *SliceVal:
+			mix(6)
+		case *FuncVal:
+			mix(11)
+		case *TupleVal:
+			mix(12 + len(c.E))
 		}
-	case *MapObj:
-		mix(7)
-	case *ChanObj:
-		mix(8 + 16*c.Cap)
-	case *OpaqueVal:
-		mix(9)
-	case *Term:
-		mix(10 + c.W)
-	case *StrVal:
-		mix(3)
-	case *PtrVal:
-		mix(4)
-	case *IfaceVal:
-		mix(5)
-	case *SliceVal:
-		mix(6)
-	case *FuncVal:
-		mix(11)
 	}
+	kind(v, 2)
 	mix(x.allocSeq)
 	x.allocSeq++
 	for {
